@@ -43,6 +43,14 @@ var corpus = []string{
 	// stale close: A connects and closes, B reconnects from the same address, A's Conn is closed AGAIN, then C connects
 	"S:1:1:1:* i0.1.5000.20338.1.ok;i0.1.5000.20338.1.ok;i0.1.5000.20338.1.ok;i1.1.5000.20338.2.ok;i1.1.5000.20338.2.ok;i0.1.5000.20338.1.ok;i2.1.5001.20338.3.ok;i2.1.5001.20338.3.ok",
 	"S:1:1:1:* o0.1.20338.20338.1.ok;o0.1.20338.20338.1.ok;o0.1.20338.20338.1.ok;o1.1.20338.20338.2.ok;o1.1.20338.20338.2.ok;o0.1.20338.20338.1.ok;o2.2.20338.20338.3.ok;o2.2.20338.20338.3.ok",
+	// per-IP limit with IPv6 remotes (records are bracketed `[::1]:port`, the counted key is the bare `::1`), zones,
+	// IPv4-mapped next to plain IPv4, and IPv4 hosts that are string prefixes of one another
+	"S:3:1:3:* i0,::1,5000,20338,1,ok;i0,::1,5000,20338,1,ok;i1,::1,5001,20338,2,ok;i2,::2,5002,20338,3,ok;i2,::2,5002,20338,3,ok",
+	"S:3:1:3:* i0,fe80::1%eth0,5000,20338,1,ok;i0,fe80::1%eth0,5000,20338,1,ok;i1,fe80::1%eth0,5001,20338,2,ok;i2,fe80::1%eth1,5002,20338,3,ok;i2,fe80::1%eth1,5002,20338,3,ok",
+	"S:3:1:3:* i0,2001:db8::1,5000,20338,1,ok;i1,2001:db8::1,5001,20338,2,ok;i0,2001:db8::1,5000,20338,1,ok;i2,2001:db8::10,5002,20338,3,ok;i2,2001:db8::10,5002,20338,3,ok",
+	"S:3:1:3:* i0,::ffff:1.2.3.4,5000,20338,1,ok;i0,::ffff:1.2.3.4,5000,20338,1,ok;i1,1.2.3.4,5001,20338,2,ok;i1,1.2.3.4,5001,20338,2,ok;i2,::ffff:1.2.3.4,5002,20338,3,ok;i3,1.2.3.4,5003,20338,4,ok",
+	"S:4:1:3:* i0,1.2.3.4,5000,20338,1,ok;i0,1.2.3.4,5000,20338,1,ok;i1,1.2.3.40,5001,20338,2,ok;i1,1.2.3.40,5001,20338,2,ok;i2,11.2.3.4,5002,20338,3,ok;i2,11.2.3.4,5002,20338,3,ok;i3,1.2.3.4,5003,20338,4,ok;i4,1.2.3.40,5004,20338,5,ok",
+	"S:3:2:3:::1,fe80::1%eth0 i0,::1,5000,20338,1,ok;i0,::1,5000,20338,1,ok;i1,::2,5001,20338,2,ok;o2,fe80::1%eth0,20338,20338,3,ok;o2,fe80::1%eth0,20338,20338,3,ok;o3,::1,20338,20338,4,ok",
 	// repeated close without a reconnect (only the Fatalf branch of removePeer is visible)
 	"S:2:2:2:* i0.1.5000.20338.1.ok;i0.1.5000.20338.1.ok;i0.1.5000.20338.1.ok;i0.1.5000.20338.1.ok;i0.1.5000.20338.1.ok",
 }
@@ -51,9 +59,36 @@ type gthread struct {
 	desc  string
 	nops  int
 	inb   bool
-	ip    int
+	ip    string
 	port  int
 	lport int
+}
+
+// host pools: plain IPv4; IPv4 addresses that are string prefixes / suffixes of one another; IPv6 in every textual form
+// the net stack produces (loopback, zone, global, IPv4-mapped); mixtures (an IPv4 host next to its IPv4-mapped form)
+var poolV4 = []string{"10.0.0.1", "10.0.0.2", "10.0.0.3"}
+var poolPrefix = []string{"1.2.3.4", "1.2.3.40", "11.2.3.4", "1.2.3.41"}
+var poolV6 = []string{"::1", "fe80::1%eth0", "2001:db8::1", "::ffff:1.2.3.4", "2001:db8::10", "fe80::1%eth1", "::11"}
+var poolMixed = []string{"1.2.3.4", "::ffff:1.2.3.4", "::1", "1.2.3.40", "fe80::1%eth0", "10.0.0.1", "2001:db8::1"}
+
+func pickHosts(r *hx.Rand, n int) []string {
+	var pool []string
+	switch r.Intn(6) {
+	case 0, 1:
+		pool = poolV4
+	case 2:
+		pool = poolPrefix
+	case 3:
+		pool = poolV6
+	default:
+		pool = poolMixed
+	}
+	start := r.Intn(len(pool))
+	var out []string
+	for k := 0; k < n && k < len(pool); k++ {
+		out = append(out, pool[(start+k)%len(pool)])
+	}
+	return out
 }
 
 func gen(r *hx.Rand, tier string, i int) string {
@@ -61,29 +96,30 @@ func gen(r *hx.Rand, tier string, i int) string {
 	maxIn := lim([]int{0, 1, 1, 1, 2, 2, 3})
 	maxIp := lim([]int{1, 1, 2, 2, 3})
 	maxOut := lim([]int{0, 1, 1, 1, 2, 2, 3})
-	nip := 1 + r.Intn(3)
+	hosts := pickHosts(r, 1+r.Intn(3))
+	nip := len(hosts)
 	rsv := "*"
 	if r.Chance(10) {
 		var l []string
-		for ip := 1; ip <= nip+1; ip++ {
+		for _, h := range append(append([]string{}, hosts...), "10.0.0.9") {
 			if r.Chance(60) {
-				l = append(l, fmt.Sprint(ip))
+				l = append(l, h)
 			}
 		}
 		if len(l) == 0 {
-			l = []string{"1"}
+			l = []string{hosts[0]}
 		}
 		rsv = strings.Join(l, ",")
 	}
 	mode := r.Intn(13) // 0-3 racy (checks first), 4-7 random interleaving, 8-9 sequential, 10-11 stale close, 12 duplicate dials
 	if mode >= 10 {
-		return fmt.Sprintf("S:%d:%d:%d:%s %s", maxIn, maxIp, maxOut, rsv, genPattern(r, mode, nip))
+		return fmt.Sprintf("S:%d:%d:%d:%s %s", maxIn, maxIp, maxOut, rsv, genPattern(r, mode, hosts))
 	}
 	sequential := mode >= 8
 	n := 2 + r.Intn(6)
 	var ths []gthread
 	for k := 0; k < n; k++ {
-		t := gthread{inb: r.Chance(60), ip: 1 + r.Intn(nip), lport: 20338 + r.Intn(2)}
+		t := gthread{inb: r.Chance(60), ip: hosts[r.Intn(nip)], lport: 20338 + r.Intn(2)}
 		pid := k + 1
 		if k > 0 && r.Chance(12) {
 			pid = 1 + r.Intn(k)
@@ -104,13 +140,13 @@ func gen(r *hx.Rand, tier string, i int) string {
 			if sequential && k > 0 && r.Chance(20) && ths[k-1].inb && ths[k-1].nops >= 3 {
 				t.ip, t.port = ths[k-1].ip, ths[k-1].port // reconnect from the same remote address after a close
 			}
-			t.desc = fmt.Sprintf("i%d.%d.%d.%d.%d.%s", k, t.ip, t.port, t.lport, pid, fate)
+			t.desc = fmt.Sprintf("i%d,%s,%d,%d,%d,%s", k, t.ip, t.port, t.lport, pid, fate)
 		} else {
 			t.port = 20338 + r.Intn(2) // few dial targets: duplicate dials and listen-address clashes are frequent
 			if r.Chance(5) && k > 0 {
 				t.ip, t.port = ths[r.Intn(k)].ip, ths[r.Intn(k)].port
 			}
-			t.desc = fmt.Sprintf("o%d.%d.%d.%d.%d.%s", k, t.ip, t.port, t.lport, pid, fate)
+			t.desc = fmt.Sprintf("o%d,%s,%d,%d,%d,%s", k, t.ip, t.port, t.lport, pid, fate)
 		}
 		ths = append(ths, t)
 	}
@@ -174,7 +210,9 @@ func interleave(r *hx.Rand, ths []gthread, left []int) []string {
 //	    a reconnect); A's stale Conn handle is closed again; further connections C, D test whether a slot was freed
 //	duplicate dials (mode 12): A and B dial the same address while A is in flight (B is refused by `connecting`), a third
 //	    dial C to another address competes for the slot that A has reserved; A completes (or fails) afterwards
-func genPattern(r *hx.Rand, mode int, nip int) string {
+func genPattern(r *hx.Rand, mode int, hosts []string) string {
+	nip := len(hosts)
+	host := func() string { return hosts[r.Intn(nip)] }
 	fates := func() string {
 		switch x := r.Intn(100); {
 		case x < 8:
@@ -186,11 +224,11 @@ func genPattern(r *hx.Rand, mode int, nip int) string {
 	}
 	var ops []string
 	if mode == 12 {
-		ip, port := 1+r.Intn(nip), 20338+r.Intn(2)
-		a := fmt.Sprintf("o0.%d.%d.20338.1.%s", ip, port, fates())
-		b := fmt.Sprintf("o1.%d.%d.20338.%d.%s", ip, port, 1+r.Intn(2), fates())
-		c := fmt.Sprintf("o2.%d.%d.20338.3.%s", 1+r.Intn(nip), 20340+r.Intn(2), fates())
-		d := fmt.Sprintf("o3.%d.%d.20338.4.ok", 1+r.Intn(nip), 20342)
+		ip, port := host(), 20338+r.Intn(2)
+		a := fmt.Sprintf("o0,%s,%d,20338,1,%s", ip, port, fates())
+		b := fmt.Sprintf("o1,%s,%d,20338,%d,%s", ip, port, 1+r.Intn(2), fates())
+		c := fmt.Sprintf("o2,%s,%d,20338,3,%s", host(), 20340+r.Intn(2), fates())
+		d := fmt.Sprintf("o3,%s,%d,20338,4,ok", host(), 20342)
 		ops = []string{a, b}
 		tail := []string{c, c, a, b, d, d, a, c, b}
 		if r.Chance(50) {
@@ -207,13 +245,13 @@ func genPattern(r *hx.Rand, mode int, nip int) string {
 	if r.Chance(40) {
 		dir = "o"
 	}
-	ip := 1 + r.Intn(nip)
+	ip := host()
 	port := 5000
 	if dir == "o" {
 		port = 20338
 	}
-	mk := func(n, ip, port, pid int) string {
-		return fmt.Sprintf("%s%d.%d.%d.%d.%d.ok", dir, n, ip, port, 20338+r.Intn(2), pid)
+	mk := func(n int, ip string, port, pid int) string {
+		return fmt.Sprintf("%s%d,%s,%d,%d,%d,ok", dir, n, ip, port, 20338+r.Intn(2), pid)
 	}
 	samePid := r.Chance(30)
 	a := mk(0, ip, port, 1)
@@ -222,8 +260,8 @@ func genPattern(r *hx.Rand, mode int, nip int) string {
 		pidB = 1
 	}
 	b := mk(1, ip, port, pidB) // reconnect from the same remote address
-	c := mk(2, 1+r.Intn(nip), port+1, 3)
-	d := mk(3, 1+r.Intn(nip), port+2, 4)
+	c := mk(2, host(), port+1, 3)
+	d := mk(3, host(), port+2, 4)
 	ops = []string{a, a, a}
 	if r.Chance(80) {
 		ops = append(ops, b, b)
